@@ -455,6 +455,14 @@ class Engine(StmtMixin):
         smt.reset_names()
         self.cur_fn_key = c.key
         self.cur_contract = c
+        # raises entries are matched in order (first match): an entry listed after one of its superclasses can never apply
+        seen_cls: list = []
+        for rname in c.raises:
+            rc = self.class_by_name(rname)
+            for prev_name, prev in seen_cls:
+                if self.is_subclass(rc, prev):
+                    raise EngineError(f"{c.key}: raises entry {rname!r} is listed after {prev_name!r}, which already matches it (unreachable clauses)")
+            seen_cls.append((rname, rc))
         n0 = len(self.obligations)
         st = State()
         ghost = st.alloc(ObjMeta("ghost", None, "ghost"), {})
